@@ -790,6 +790,24 @@ def c_call(run, n, terms, meta):
 ACC_FORMS = ["distinct", "groupBy", "toDict", "generate", "memorize"]
 
 
+def acc_returned(form, items, M):
+    """Own size of the value the function RETURNS when its loop completes, where that value is built
+    from the accumulator (decided on the live function's result type, not assumed); 0 for the
+    functions that return a lazy sequence (the loop then runs while that sequence is consumed)."""
+    if form != "toDict":
+        return 0
+    acc = {}
+    for t in items:
+        acc[t % M] = t
+    if "toDict" not in _returned_type:        # what kind of value comes back (asked of the live function, once)
+        _returned_type["toDict"] = type(fresh_ctx()("toDict", engine(), receiver=(1,))(lambda x: x))
+    kind = _returned_type["toDict"]
+    return sys.getsizeof(acc if kind is dict else kind(acc), 0)
+
+
+_returned_type = {}
+
+
 def acc_sizes(form, items, M):
     """Own size of the function's private accumulator: empty, and after each source item
     (the same operations on the same kind of object, replayed here)."""
@@ -843,7 +861,7 @@ def run_acc(form, items, M, Q, how):
     return text, raised, steps, other
 
 
-def acc_predicate(form, Q, a0, sizes, raised, steps, other):
+def acc_predicate(form, Q, a0, sizes, raised, steps, other, ret=0):
     if other:
         return "%s raised %s" % (form, other)
     if Q <= 0:
@@ -853,6 +871,8 @@ def acc_predicate(form, Q, a0, sizes, raised, steps, other):
         return "the accumulator of %s reached %d bytes under quota %d and the loop went on" % (form, max(sizes), Q)
     if over and steps > over[0] + 1:
         return "the accumulator of %s exceeded the quota %d at step %d but %d steps were made" % (form, Q, over[0] + 1, steps)
+    if not over and ret > Q and not raised:
+        return "%s returned a value of %d bytes under quota %d" % (form, ret, Q)
     return None
 
 
@@ -868,10 +888,11 @@ def c_acc(run, n, terms, meta):
         else:
             items = [run.rng.randrange(0, 60) for _ in range(L)]
         a0, sizes = acc_sizes(form, items, M)
+        ret = acc_returned(form, items, M)
         r = run.rng.random()
         if r < 0.8 and sizes:
             # floor: the generator objects these functions return are themselves ~250-byte values
-            Q = max(330, run.rng.choice(sizes + [a0]) + run.rng.choice([-1, 0, 0, 1]))
+            Q = max(330, run.rng.choice(sizes + [a0] + ([ret] if ret else [])) + run.rng.choice([-1, 0, 0, 1]))
         elif r < 0.9:
             Q = run.rng.choice([0, -1])
         else:
@@ -885,10 +906,12 @@ def c_acc(run, n, terms, meta):
         if i % 61 == 0:
             run.sample({"kind": "acc", "expr": text, "items": items, "Q": Q, "accumulator_sizes": [a0] + sizes,
                         "raised": raised, "steps": steps})
-        terms.append("CAcc %s %s %s %s %s" % (gal.z(Q), gal.z(a0), gal.zlist(gs), gal.boolean(raised), gal.nat(min(steps, 4000))))
+        terms.append("CAcc %s %s %s %s %s %s" % (gal.z(Q), gal.z(a0), gal.zlist(gs), gal.z(ret), gal.boolean(raised),
+                                                 gal.nat(min(steps, 4000))))
         meta.append(("acc", {"form": form, "items": items, "M": M, "Q": Q, "options_route": how, "expr": text},
-                     {"raised": raised, "steps": steps, "exception": other, "accumulator_sizes": [a0] + sizes},
-                     acc_predicate(form, Q, a0, sizes, raised, steps, other)))
+                     {"raised": raised, "steps": steps, "exception": other, "accumulator_sizes": [a0] + sizes,
+                      "returned_value_size": ret},
+                     acc_predicate(form, Q, a0, sizes, raised, steps, other, ret)))
 
 
 # --------------------------------------------------------------------------
@@ -1657,7 +1680,8 @@ def replay(run, data):
         i = d["input"]
         a0, sizes = acc_sizes(i["form"], i["items"], i["M"])
         text, raised, steps, other = run_acc(i["form"], i["items"], i["M"], i["Q"], i.get("options_route", "copy"))
-        return acc_predicate(i["form"], i["Q"], a0, sizes, raised, steps, other) is None
+        return acc_predicate(i["form"], i["Q"], a0, sizes, raised, steps, other,
+                             acc_returned(i["form"], i["items"], i["M"])) is None
     if kind == "chain":
         i = d["input"]
         raised, other = eval_chain(i["expr"], i["vars"], i["Q"], i.get("options_route", "copy"))
